@@ -128,11 +128,13 @@ def run(out, tier, seed, proof):
             if dup or lost or twice or never:
                 explicit = {d["name"] for d in mod["decorated"] if d["name"] is not None}
                 generated_like = any("[" in e for e in explicit)
+                # the known findings explain exactly the losses/doublings the faithful model has too
                 fid = ()
-                if explicit & set(mod["prefixed"]) and dup:
-                    fid = ("F8",)
-                elif generated_like and lost and not dup:
-                    fid = ("F7",)
+                if got in allowed[ci]:
+                    if explicit & set(mod["prefixed"]) and dup:
+                        fid = ("F8",)
+                    elif generated_like and lost and not dup:
+                        fid = ("F7",)
                 out.violation("functions and collected tasks do not correspond one to one although collection succeeded",
                               {"case": c, "tasks": names, "functions": nfun, "ran": ran}, finding_matchers=fid)
     out.coverage["programs"] = len(flat_cases)
